@@ -209,6 +209,10 @@ def build_c(f, e):
         return BIN_ALL[e[1]](e[2], build_c(f, e[3]))
     if t == "neg":
         return -build_c(f, e[1])
+    if t == "same":
+        # ["same", op, E]: ONE object used as both operands (x = sdf.x; x * x) - not two equal expressions
+        v_ = build_c(f, e[2])
+        return BIN_ALL[e[1]](v_, v_)
     if t == "map":
         # ["map", fn, E, na_action, form]: Series.map with every spelling of its na_action option (same call on both sides)
         s_, fn = build_c(f, e[2]), MAPFNS[e[1]]
@@ -439,7 +443,12 @@ def oracle_same(target, impl, want):
 
 
 def frame_rows(cols, df):
-    return [[frac(v) for v in row] for row in df[cols].itertuples(index=False, name=None)] if len(cols) else []
+    def cell(v):
+        try:
+            return frac(v)
+        except Exception:      # noqa: BLE001 - a cell that is not a number (e.g. a whole Series): compared by its text
+            return "unreadable:" + str(type(v).__name__)
+    return [[cell(v) for v in row] for row in df[cols].itertuples(index=False, name=None)] if len(cols) else []
 
 
 def opposite_infinities(prefix, target):
@@ -556,11 +565,15 @@ def _check_api(ctx, case, answers):
             got_op = impl["operands"][k]
             if got_op is not None:
                 want_op = build_c(want_fr, t["expr"] if t["kind"] == "col" else t["key"])
-                if isinstance(got_op, str) or [frac(v) for v in got_op] != [frac(v) for v in want_op] or \
+                try:
+                    got_vals = None if isinstance(got_op, str) else [frac(v) for v in got_op]
+                except Exception:      # noqa: BLE001 - cells that are not numbers (a Series of Series ...): differs, whatever it is
+                    got_vals = None
+                if got_vals is None or got_vals != [frac(v) for v in want_op] or \
                         list(got_op.index) != list(want_op.index):
                     failed = True
                     ctx.failure(pre + "map:column-differs", "batch %d: streaming expression emitted %s, pandas on that batch gives %s"
-                                % (k, got_op if isinstance(got_op, str) else list(got_op), list(want_op)), case,
+                                % (k, got_op if isinstance(got_op, str) else [str(v)[:40] for v in got_op], list(want_op)), case,
                                 oracle="per-batch: streaming column expression == pandas expression on the batch")
                     break
             prefix = build_pipe(concat(src[:k + 1]), case["pipe"])
@@ -1157,6 +1170,10 @@ def corpus():
     for agg in ("mean", "sum", "count", "size", "var", "std", "value_counts"):
         cs.append({"kind": "api", "cols": COLS, "batches": [B([]), B([1, 2, 3])], "pipe": [],
                    "target": {"kind": "col", "agg": agg, "expr": X, "ddof": 1}})
+    # frame aggregations while every cell seen so far is NaN (rows exist): one NaN per column, like pandas - not a scalar
+    for agg in ("mean", "sum", "count"):
+        cs.append({"kind": "api", "cols": COLS, "batches": [B([None], y=[None], g=[0]), B([None, None], y=[None, None], g=[1, 0]), B([2], y=[None], g=[0]), B([None], y=[3], g=[1])],
+                   "pipe": [["select", ["x", "y"]]], "target": {"kind": "frame", "agg": agg}})
     # all-NaN first batch, then data; NaN-only prefix with rows
     cs.append({"kind": "api", "cols": COLS, "batches": [B([None]), B([1, 2, 3]), B([]), B([None, 2])], "pipe": [],
                "target": {"kind": "col", "agg": "mean", "expr": X}})
@@ -1238,7 +1255,8 @@ def gen_nonfinite_case(rng):
     X, Y = ["col", "x"], ["col", "y"]
     mapframe = None
     if source == "data":
-        expr = rng.choice([X, ["bin", "add", X, Y], ["binr", "mul", X, 2], ["neg", X], ["bin", "sub", Y, X]])
+        expr = rng.choice([X, ["bin", "add", X, Y], ["binr", "mul", X, 2], ["neg", X], ["bin", "sub", Y, X],
+                           ["same", "mul", X], ["same", "add", ["bin", "sub", Y, X]]])
     elif source == "map":
         na = rng.choice(["ignore", "ignore", None])
         form = rng.choice(["kw", "pos"]) if na else rng.choice(["kw", "pos", "default"])
@@ -1298,6 +1316,12 @@ def nonfinite_corpus():
         cs.append({"kind": "nonfinite", "source": "division", "placement": name, "cols": COLS, "batches": batches,
                    "pipe": [["assign", "r", ratio]],
                    "target": {"kind": "group", "agg": "sum", "val": "r", "by": "name", "key": ["col", "g"], "approx": True}})
+    # one streaming object in two argument positions of one operation
+    for agg in ("sum", "mean"):
+        cs.append({"kind": "nonfinite", "source": "data", "placement": "first-batch", "cols": COLS, "batches": first, "pipe": [],
+                   "target": {"kind": "col", "agg": agg, "expr": ["same", "mul", X], "ddof": 1, "approx": True}})
+    cs.append({"kind": "nonfinite", "source": "data", "placement": "first-batch", "cols": COLS, "batches": first,
+               "pipe": [["assign", "r", ["same", "add", ["bin", "add", X, Y]]]], "target": {"kind": "frame", "agg": "sum", "approx": True}})
     # element-wise map with na_action over NaN (Series.map and DataFrame.map, keyword and positional)
     nanny = [B([1, None, 2], y=[1, 2, None], g=[0, 1, 0]), B([None], y=[3], g=[1]), B([3, 1], y=[None, 1], g=[0, 1])]
     for form in ("kw", "pos"):
